@@ -237,11 +237,40 @@ def size(t) -> int:
     return sum(1 for x in subterms(t) if x[0] in ("neg", "not", "and", "or", "cmp", "arith", "in", "call", "lambda"))
 
 
+def _compound(e) -> bool:
+    """Expressions an SQL generator renders inside their own parentheses / behind NOT."""
+    return e[0] in ("arith", "neg", "cmp", "not", "in") or (e[0] == "call" and e[1] in ("indexof", "concat"))
+
+
+def _lookup_left(e):
+    """Left operand of a comparison-like node (the tested expression for a null test), else None."""
+    if e[0] == "cmp":
+        if e[2][0] == "null":
+            return e[3]
+        return e[2]
+    if e[0] == "in":
+        return e[1]
+    if e[0] == "call" and e[1] in STR_FUNCS_BOOL:
+        return e[2][0]
+    return None
+
+
 def features(t) -> List[str]:
-    """Syntactic features (only used to label defect classes in reports, never to decide)."""
+    """Syntactic features (used to label defect classes in reports and by the static known-finding regions)."""
     out = set()
     for x in subterms(t):
         k = x[0]
+        if k == "cmp":
+            r = x[3] if x[3][0] != "null" else None
+            if x[2][0] == "null":          # `null eq e` is translated as `e eq null`
+                r = None
+            if r is not None:
+                ll = _lookup_left(r)
+                if ll is not None and _compound(ll):
+                    out.add("nested-lookup-with-compound-left")
+            tested = x[2] if x[3][0] == "null" else (x[3] if x[2][0] == "null" else None)
+            if tested is not None and tested[0] == "not":
+                out.add("nested-lookup-with-compound-left")
         if k == "neg":
             out.add("unary-minus")
         elif k == "arith":
@@ -264,9 +293,10 @@ def features(t) -> List[str]:
             for c in (x[2], x[3]):
                 if c[0] == "cmp" and (c[2][0] in ("arith", "neg") or c[3][0] in ("arith", "neg")):
                     out.add("cmp-operand-is-cmp-of-arith")
-                if c[0] == "cmp" and "null" in (c[2][0], c[3][0]) and any(
-                        o[0] in ("int", "str", "bool") for o in (c[2], c[3])):
-                    out.add("constant-null-test-as-operand")
+                for y in subterms(c):
+                    if y[0] == "cmp" and "null" in (y[2][0], y[3][0]) and all(
+                            not any(z[0] in ("field", "path") for z in subterms(o)) for o in (y[2], y[3])):
+                        out.add("constant-null-test-as-operand")
                 if c[0] == "call" and c[1] in STR_FUNCS_BOOL:
                     out.add("boolfunc-as-compare-operand")
                 if c[0] == "in":
